@@ -79,9 +79,9 @@ func genRequests(rng *cq.Rng, n int) []httpReq {
 
 func httpCmd(out *cq.Out, seed uint64, tier string) {
 	rng := cq.NewRng(seed)
-	nreq := 400
+	nreq := 1500
 	if tier == "thorough" {
-		nreq = 4000
+		nreq = 12000
 	}
 	dir, _ := os.MkdirTemp(out.Dir, "http")
 	port := freePorts(1)[0]
